@@ -288,7 +288,7 @@ fn direct_verdict(doc0: &Document, v: &Ver, pws: &[Vec<u8>], alldiff: bool) -> S
             payload(o, &mut vec![], false, &mut a);
             payload(&enc.objects[id], &mut vec![], false, &mut b);
             for (x, y) in a.iter().zip(b.iter()) {
-                if !x.2 && x.3.len() >= 16 && x.3 == y.3 {
+                if x.3.len() >= 16 && x.3 == y.3 {
                     return format!("FAIL {} of {} bytes in object {:?} keeps its plaintext after encryption",
                                    if x.1 { "stream" } else { "string" }, x.3.len(), id);
                 }
@@ -312,6 +312,11 @@ fn direct_verdict(doc0: &Document, v: &Ver, pws: &[Vec<u8>], alldiff: bool) -> S
         p[..p.len().min(n)].to_vec()
     };
     for (who, pw) in [("user", &v.user), ("owner", &v.owner)] {
+        // revisions 2-4: an empty owner password means that the document has no owner password (the O entry
+        // is then computed from the user password, ISO 32000 Algorithm 3 step a); nothing to open with
+        if who == "owner" && pw.is_empty() && !v.user.is_empty() && matches!(v.tag.as_str(), "v1" | "v2" | "v4") {
+            continue;
+        }
         // in memory
         let mut d = enc.clone();
         match decrypt_with(&mut d, pw) {
